@@ -18,7 +18,8 @@ LEVEL_TEXT = ('Runtime history checking under controlled schedules: for every so
               'consumer-side history is checked against the source prefix and a deadlock is decided by thread state, not by a '
               'timeout. Value helpers are compared with NumPy under 1,2,3,4,8 host devices (scan_in_dim over positive and negative axis tuples).'
               ' scan_in_dim also runs over negative axes; onehot over narrow label dtypes; pad_shard_unpad over'
-              ' same-shaped leaves of different dtypes.')
+              ' same-shaped leaves of different dtypes.'
+              ' Round e/f: BaseException / falsy source errors in PrefetchIterator, resumable sources for prefetch_to_device, shard with empty trailing dims, onehot with mixed value types.')
 LEVEL_NOTE = ('Schedules are explored at statement granularity of one file under the GIL (the granularity CPython interleaves at); '
               'the traced Condition/Thread shim and jax device_put_sharded/replicated compat drop-ins are trusted.')
 TECHNIQUE = 'runtime monitoring: client-boundary history checker + delay-bounded schedule enumeration + state-based deadlock detector; NumPy value oracles'
